@@ -461,7 +461,7 @@ func (g *PGen) errForm(d int) *Node {
 			Call("get-default", e), Call("sorted-map", A(":a")))
 	case 5:
 		return Call("funcall", A("'car"), g.E(d-1), g.E(d-1)) // refused binding reached through funcall
-	
+
 	case 0:
 		return Call("if", g.C(d-1), g.E(d-1), Call("error", QS(PickStr(g.r, condNames[:3])), g.E(d-1)))
 	case 1:
